@@ -24,3 +24,6 @@ def check(ctx, rep):
     F.rule_setters(fm, rep, 'R4s', only=('rate', 'ts'))
     K.rule_rejection(fm, rep, 'R5')
     K.rule_try_send(fm, rep, 'R5t')
+    # the statsd_* macros are one more way a value reaches the client: handed over as supplied, no cast in between
+    from . import c17
+    c17.rule_macro_values(ctx, rep, 'R6m')
